@@ -1,7 +1,10 @@
 """C06 A step fails exactly when the real CPU would fault (guard structure; no shape/count dependent aborts).
 
 C06.divzero   every Div/Rem in a DIV/IDIV handler is preceded by `divisor == 0 -> Err`
-C06.quotient  the quotient passes a range test that can lead to Err before it is narrowed to the destination width
+C06.quotient  per class of the quotient (fits / too large; IDIV: fits / above / below) -- and, for DIV r/m16/32/64, of the
+              high half of the dividend against the divisor (hi<d / hi=d / hi>d) -- the handler is interpreted with every
+              comparison over the quotient or over (hi, d) answered by the class: a fitting quotient has a success
+              path, a quotient that does not fit has none. Independent of how the handler spells its range test.
 C06.mem       a failing guest memory access makes the handler return that error (every handler, every shape)
 C06.align     16-byte memory operands of alignment-checking SSE forms test `addr & 0xf` and can fail
 C06.spurious  no abort (panic / failed assertion / overflow check) for a legal operand value: operand-shape aborts,
@@ -76,7 +79,8 @@ def div(ctx):
                             if H.mentions(v, q) and A.width_of(q) > width:
                                 narrowed = True
                 if narrowed and not tested and not is_err(o):
-                    qbad = qbad or "quotient narrowed to %d bits without a range test" % width
+                    pass  # decided per class below (quotient_classes)
+            qbad = quotient_classes(ctx, code, shape, oc)
             if ndiv == 0:
                 zbad = zbad or "no division found"
             if not zero_err:
@@ -91,6 +95,117 @@ def div(ctx):
             else:
                 ck.ok("C06.quotient", inst)
     ck.floor("DIV/IDIV forms", len(codes), 8)
+
+
+HI_REG = {16: "DX", 32: "EDX", 64: "RDX"}
+
+
+def quotient_classes(ctx, code, shape, oc):
+    from . import C01
+    facts, hm = ctx.facts, ctx.hmodel
+    N = {"r8_or_mem": 8, "r16_or_mem": 16, "r32_or_mem": 32, "r64_or_mem": 64}[oc["kinds"][0]]
+    signed_q = oc["mnemonic"] == "Idiv"
+    if signed_q:
+        classes = [("quotient fits", (-(1 << (N - 1)), (1 << (N - 1)) - 1), None, True),
+                   ("quotient above the signed range", (1 << (N - 1), (1 << (2 * N - 1)) - 1), None, False),
+                   ("quotient below the signed range", (-(1 << (2 * N - 1)), -(1 << (N - 1)) - 1), None, False)]
+    else:
+        fits, over = (0, (1 << N) - 1), (1 << N, (1 << (2 * N)) - 1)
+        if N == 8:
+            classes = [("quotient fits", fits, None, True), ("quotient too large", over, None, False)]
+        else:
+            classes = [("quotient fits (hi<d)", fits, {"hi": 0, "d": 1}, True),
+                       ("quotient too large (hi=d)", over, {"hi": 1, "d": 1}, False),
+                       ("quotient too large (hi>d)", over, {"hi": 2, "d": 1}, False)]
+
+    # boundary points and halves of each class (an off-by-one or a too-strict range test shows up there)
+    extra = []
+    for cname, iv, ranks, want in classes:
+        pts = {iv[0], iv[1]} if want else {iv[0] if iv[0] > 0 else iv[1]}
+        for v in sorted(pts):
+            extra.append(("%s, quotient = %#x" % (cname, v), (v, v), ranks, want))
+        if want:
+            mid = (iv[0] + iv[1] + 1) // 2
+            extra.append(("%s, lower half" % cname, (iv[0], mid - 1), ranks, want))
+            extra.append(("%s, upper half" % cname, (mid, iv[1]), ranks, want))
+    classes = classes + extra
+
+    def role(t):
+        t = U.strip(t)
+        if t[0] == "reg":
+            if C01.operand_of_leaf(facts, t) == 0:
+                return "d"
+            if N > 8 and U.reg_name(facts, t[2]) == HI_REG[N] and t[1] == N:
+                return "hi"
+        if t[0] == "mem" and C01.operand_of_leaf(facts, t) == 0:
+            return "d"
+        return None
+
+    def interval(path, t, sg, iv):
+        """mathematical value range of t read as signed (sg) or unsigned, or None"""
+        if A.is_int(t):
+            w = A.width_of(t)
+            v = t[1] & ((1 << w) - 1)
+            if sg and v >> (w - 1):
+                v -= 1 << w
+            return (v, v)
+        if t[0] == "bin" and t[1] == "Div":
+            if sg == signed_q or iv[0] >= 0:
+                return iv if (sg == signed_q or iv[1] < (1 << (A.width_of(t) - 1))) else None
+            return None
+        if t[0] == "w":
+            return interval(path, t[1], sg, iv)
+        if t[0] == "cast":
+            _, a, fb, fs, tb = t
+            r = interval(path, a, bool(fs), iv)
+            if r is None:
+                return None
+            lim = min(fb, tb)
+            if 0 <= r[0] and r[1] < (1 << (lim - 1)):
+                return r
+            if tb >= fb and bool(fs) == sg:
+                return r
+            return None
+        if t[0] == "bin" and t[1] in ("Shr", "ShrUnchecked") and A.is_int(t[3]):
+            r = interval(path, t[2], sg, iv)
+            if r is not None and r[0] >= 0:
+                return (r[0] >> t[3][1], r[1] >> t[3][1])
+        return None
+
+    bad = None
+    for cname, iv, ranks, want_success in classes:
+        def oracle(path, op, a, b, iv=iv, ranks=ranks):
+            if ranks is not None:
+                ra, rb = role(a), role(b)
+                if ra is not None and rb is not None:
+                    x, y = ranks[ra], ranks[rb]
+                    return int({"Eq": x == y, "Ne": x != y, "Lt": x < y, "Le": x <= y, "Gt": x > y, "Ge": x >= y}[op])
+            if not (H.mentions_op(a, "Div") or H.mentions_op(b, "Div")):
+                return None
+            sg = bool(path.tags.get(("signed", ("bin", op, a, b, 8))))
+            ia, ib = interval(path, a, sg, iv), interval(path, b, sg, iv)
+            if ia is None or ib is None:
+                return None
+            if op == "Lt":
+                return 1 if ia[1] < ib[0] else 0 if ia[0] >= ib[1] else None
+            if op == "Le":
+                return 1 if ia[1] <= ib[0] else 0 if ia[0] > ib[1] else None
+            if op == "Gt":
+                return 1 if ia[0] > ib[1] else 0 if ia[1] <= ib[0] else None
+            if op == "Ge":
+                return 1 if ia[0] >= ib[1] else 0 if ia[1] < ib[0] else None
+            if op in ("Eq", "Ne"):
+                if ia[1] < ib[0] or ib[1] < ia[0]:
+                    return int(op == "Ne")
+            return None
+        outs, I = hm.run(code, shape, cmp_oracle=oracle)
+        ok = [o for o in outs if o.kind == "return" and not is_err(o) and any(e[0] == "divop" for e in o.path.events)]
+        ctx.check.cov["quotient_class_runs"] = ctx.check.cov.get("quotient_class_runs", 0) + 1
+        if want_success and not ok:
+            bad = bad or "%s: no success path (a legal division is refused)" % cname
+        if not want_success and ok:
+            bad = bad or "%s: the step succeeds (the quotient is truncated), the CPU raises #DE" % cname
+    return bad
 
 
 # --------------------------------------------------------------------------- memory faults, spurious aborts
